@@ -39,7 +39,7 @@ RES=""
 for C in $CHECKS; do
   git -C /repo apply $SRC/patch.diff || { echo "patch does not apply to /repo"; continue; }
   OUT=$(GOVC_EVIDENCE_DIR=/verif/work/seed-evidence /verif/bin/govc check $C 2>&1); RC=$?
-  git -C /repo checkout -- .
+  git -C /repo apply -R $SRC/patch.diff
   echo "== check $C exit=$RC"; echo "$OUT" | grep -E "^(VIOLATION|ENGINE-ERROR|C[0-9]+:)" | cut -c1-300 | head -6
   RES="$RES $C:$RC"
 done
